@@ -30,9 +30,10 @@ def count_write_kinds(it):
     """Writes of FileIterator.count in next(): (+1 steps, `= file_entries.len()` terminal assignments, anything else) as block lists."""
     tb = TermBuilder(it)
     steps, terminal, other = [], [], []
+    selfs = it.self_aliases()
     for bb in it.reachable():
         for st in it.stmts(bb):
-            if st["k"] == "assign" and st["lhs"]["l"] == 1 and [p.get("n") for p in st["lhs"]["p"] if isinstance(p, dict) and "n" in p] == ["count"]:
+            if st["k"] == "assign" and st["lhs"]["l"] in selfs and [p.get("n") for p in st["lhs"]["p"] if isinstance(p, dict) and "n" in p] == ["count"]:
                 r = render(tb.term(st["rv"]["o"])) if st["rv"]["r"] == "use" else "?"
                 is_step = False
                 if st["rv"]["r"] == "use":
@@ -40,7 +41,7 @@ def count_write_kinds(it):
                         if lf["kind"] == "bin" and lf["stmt"]["rv"]["op"] in ("AddWithOverflow", "Add", "AddUnchecked"):
                             a_, b_ = lf["stmt"]["rv"]["a"], lf["stmt"]["rv"]["b"]
                             pa = op_place(a_)
-                            if const_int(b_) == 1 and pa is not None and pa["l"] == 1 and [p.get("n") for p in pa["p"] if isinstance(p, dict) and "n" in p] == ["count"]:
+                            if const_int(b_) == 1 and pa is not None and pa["l"] in selfs and [p.get("n") for p in pa["p"] if isinstance(p, dict) and "n" in p] == ["count"]:
                                 is_step = True
                 if is_step:
                     steps.append(bb)
@@ -132,7 +133,7 @@ def run(f, fixture, rep, cfg, tier):
         cw = []
         for bb in it.reachable():
             for st in it.stmts(bb):
-                if st["k"] == "assign" and st["lhs"]["l"] == 1 and [p.get("n") for p in st["lhs"]["p"] if isinstance(p, dict) and "n" in p] == ["count"]:
+                if st["k"] == "assign" and st["lhs"]["l"] in it.self_aliases() and [p.get("n") for p in st["lhs"]["p"] if isinstance(p, dict) and "n" in p] == ["count"]:
                     cw.append(bb)
         in_loop = [bb for bb in cw if any(bb in blks for (_h, blks) in it.loops())]
         # a write is either the single step (+1) or the terminal assignment `count = file_entries.len()` that ends the iteration
@@ -145,7 +146,8 @@ def run(f, fixture, rep, cfg, tier):
     # ---- R2 newc ----------------------------------------------------------------------------------
     ih = f.one("payload::Builder::into_header")
     th = TermBuilder(ih)
-    ext = dom_sorted(ih, [c for c in ih.calls() if c.decl == "std::iter::Extend::extend" or c.decl.endswith("Vec::<T, A>::push")])
+    APPEND = lambda c: c.decl == "std::iter::Extend::extend" or c.decl.endswith("Vec::<T, A>::push") or c.decl.endswith("Vec::<T, A>::extend_from_slice")
+    ext = dom_sorted(ih, [c for c in ih.calls() if APPEND(c)])
     wseq = []
 
     def field_name(x):
@@ -199,11 +201,14 @@ def run(f, fixture, rep, cfg, tier):
     rep.check(okt, "R2", "writer|name-pad", "name, NUL, padding of (110 + namesize) to 4", "after the fields the writer emits %s" % tail, ih.span)
     rep.check(sorted(x for x in wseq if x.startswith("magic:")) == ["magic:070701", "magic:070702"], "R2", "writer|magic", "magic 070701 / 070702", "writer magics %s" % [x for x in wseq if x.startswith("magic:")], ih.span)
     # all hex fields use {:08x}
-    lines = {c.line for c in ext}
-    tpls = [x for x in f.fmt if x["file"] == ih.file and min(lines) <= x["line"] <= max(lines)]
+    # the templates behind the hex emissions: looked up at the lines of the `{:x}` argument constructors (which may sit in a
+    # helper spliced into this function)
+    hexargs = [c for c in ih.calls() if c.decl.endswith("Argument::<'_>::new_lower_hex")]
+    lines = {c.line for c in hexargs} or {c.line for c in ext}
+    tpls = [x for x in f.fmt if x["file"] == ih.file and x["line"] in lines and any(pc.get("trait") == "LowerHex" for pc in x["pieces"])]
     bad = [x for x in tpls if not (len(x["pieces"]) == 1 and x["pieces"][0].get("trait") == "LowerHex" and "width: Some(Count(8))" in x["pieces"][0].get("opts", "").replace("Literal(8)", "Count(8)").replace("Some(Literal(8))", "Some(Count(8))") or
                                    (len(x["pieces"]) == 1 and x["pieces"][0].get("trait") == "LowerHex" and re.search(r"width: Some\(\w*\(?8\)?\)", x["pieces"][0].get("opts", "")) and "zero_pad: true" in x["pieces"][0].get("opts", "")))]
-    n_hex = sum(1 for c in ext if re.search(r"new_lower_hex\(", render(th.term(c.args[1]))))
+    n_hex = len({c.line for c in hexargs})
     rep.check(len(tpls) >= 1 and len(tpls) == n_hex and not bad, "R2", "writer|hex-width", "every field is formatted as {:08x}", "%d templates for %d hex emissions, non-{:08x}: %s" % (len(tpls), n_hex, [b_["pieces"] for b_ in bad][:2]), ih.span)
 
     rd = f.one("payload::Reader::<R>::new")
@@ -256,7 +261,7 @@ def run(f, fixture, rep, cfg, tier):
     sh = f.one("payload::stripped_cpio_header")
     ts = TermBuilder(sh)
     seq = []
-    for c in dom_sorted(sh, [c for c in sh.calls() if c.decl == "std::iter::Extend::extend"]):
+    for c in dom_sorted(sh, [c for c in sh.calls() if (c.decl == "std::iter::Extend::extend" or c.decl.endswith("Vec::<T, A>::extend_from_slice"))]):
         t = render(ts.term(c.args[1]))
         seq.append("magic:07070X" if t == 'b"07070X"' else ("index" if "new_lower_hex(file_index)" in t else ("pad14" if t == "rpm::payload::pad(14_usize)<Some>.0" else "?" + t[:50])))
     rep.check(seq == ["magic:07070X", "index", "pad14"], "R3", "writer|stripped-header", "stripped header = magic, 8 hex index, padding of 14 to 4", "stripped header writer emits %s" % seq, sh.span)
@@ -287,11 +292,10 @@ def run(f, fixture, rep, cfg, tier):
         ok2 = "<impl [T]>::get(file_entries" in fs and ".size" in fs
         # the named branch takes the 7th hex field (c_filesize)
         ok = False
-        for lf in rd.origins(ra[1]["file_size"], passthrough={}):
-            if lf["kind"] == "cast":
-                for l2 in rd.origins(lf["stmt"]["rv"]["o"]):
-                    if l2["kind"] == "call" and l2["call"].decl.endswith("read_hex_u32") and order.get(l2["call"].bb) == NEWC_FIELDS.index("file_size"):
-                        ok = True
+        # the value may be widened with `as u64` or `u64::from`
+        for c2 in call_leaves(rd, ra[1]["file_size"]):
+            if c2.decl.endswith("read_hex_u32") and order.get(c2.bb) == NEWC_FIELDS.index("file_size"):
+                ok = True
         rep.check(ok and ok2, "R4", "size-source", "size = cpio header's filesize (named) / header file entry's size (stripped)", "Reader.file_size is %s" % fs[:260], rd.span)
         rep.check(ra[0].get("bytes_read") == "0_u64", "R4", "bytes-read-init", "bytes_read starts at 0", "bytes_read starts at %s" % ra[0].get("bytes_read"), rd.span)
     rr = [b for b in f.body_list if b.impl_trait == "std::io::Read" and "payload::Reader<" in (b.impl_self or "") and b.name == "read"]
